@@ -6,6 +6,8 @@
      state := IN_PROGRESS; costs := objective(vector); calc_signed_costs; state := EVALUATED;
      sync_individual = [ execute(upsert, [id, json.dumps(to_dict())]) ; commit() ] on a connection
      of its own (thread-safe mode); then the call returns.
+   If the objective raises TimeoutError / RuntimeError (job.py 50-60) the individual gets a freshly drawn
+   vector and state EMPTY and the loop tries again (SFail): the failure path performs NO store statement.
    sync_all is [ execute* ; commit ] on one connection.  IndividualNSGAII.copy() makes a new
    individual (new id, state EMPTY) that carries the vector, costs and signed costs of an evaluated one.
 
@@ -171,6 +173,14 @@ Section Crash.
   (* Job.evaluate on design i followed by sync_individual on its own connection (named i) *)
   Definition job (i : Z) : list step :=
     [SStart i; SCosts i; SSigned i; SDone i; SExec i i; SCommit i; SReturn i].
+  (* a failed attempt of Job.evaluate (job.py 50-60): the objective is entered and raises TimeoutError /
+     RuntimeError; the individual gets the freshly drawn replacement vector v and state EMPTY, and the loop
+     tries again.  NO store statement: nothing is executed or committed between a failed attempt and the
+     attempt that succeeds. *)
+  Definition failed_attempt (i : Z) (v : list jv) : list step := [SStart i; SFail i v].
+  (* Job.evaluate on design i whose first attempts fail (replacement vectors vs; the code allows at most
+     four before it gives up, the model any number) and whose next attempt succeeds *)
+  Definition job_retry (i : Z) (vs : list (list jv)) : list step := flat_map (failed_attempt i) vs ++ job i.
   (* a later sync_individual of an evaluated design by the algorithm, on connection c *)
   Definition resync (c i : Z) : list step := [SExec c i; SCommit c; SReturn i].
   (* sync_all on connection c over the recorded individuals *)
